@@ -54,6 +54,8 @@ M = [
  ("C14_tophat-seed-ignored", L+"interferometers/dists/top_hat.py", "        self._rng = random.default_rng(seed)", "        self._rng = random.default_rng()"),
  ("C15_y-measure-s", L+"tomography/mappings.py", "_y_measure.add(qubit.S())", "_y_measure.add(qubit.Sadj())"),
  ("C15_missing-normalisation", L+"tomography/utils.py", "        expectation /= 2**n_qubits\\n", "        expectation /= 2 ** (n_qubits - 1) if n_qubits > 2 else 2**n_qubits\\n"),
+ ("C15_experiment-args-reversed", L+"tomography/state_tomography.py", "            circuits,\\n            *(self.experiment_args if self.experiment_args is not None else []),", "            circuits,\\n            *(reversed(self.experiment_args) if self.experiment_args is not None else []),"),
+ ("C16_experiment-args-dropped-when-one", L+"tomography/process_tomography.py", "            *(self.experiment_args if self.experiment_args is not None else []),", "            *(self.experiment_args if self.experiment_args is not None and len(self.experiment_args) != 1 else []),"),
  ("C16_gf-dim", L+"tomography/gate_fidelity.py", "(total + dim**2) / (dim**2 * (dim + 1))", "(total + dim**2) / (dim**2 * (dim + 1)) if dim == 2 else (total + dim) / (dim * (dim + 1))"),
  ("C16_rho-y-sign", L+"tomography/mappings.py", '"Y+": np.array([[1, -1j], [1j, 1]]) / 2,', '"Y+": np.array([[1, 1j], [-1j, 1]]) / 2,'),
  ("C17_threshold-assign", L+"emulator/results/simulation_result.py", "                new_s = State([1 if s >= 1 else 0 for s in out_state])\\n                if invert:\\n                    new_s = State([1 - s for s in new_s])\\n                if new_s in mapped_result[in_state]:\\n                    mapped_result[in_state][new_s] += val", "                new_s = State([1 if s >= 1 else 0 for s in out_state])\\n                if invert:\\n                    new_s = State([1 - s for s in new_s])\\n                if new_s in mapped_result[in_state]:\\n                    mapped_result[in_state][new_s] = val"),
